@@ -1,6 +1,9 @@
 import GramModel.Check
 import GramModel.Oracle
 import GramModel.Lemmas.Oracle
+import GramModel.Typing
+import GramModel.Lemmas.Fuel
+import GramModel.Lemmas.TypingSound
 
 /-!
 # C03 — the type checker never accepts an ill-typed program
@@ -58,3 +61,138 @@ def acceptedButIllTyped (fuel : Nat) (w : Tm) (cells : Nat) : Bool :=
 
 def C03_false_holecopy_stmt : Prop := acceptedButIllTyped 40 C03_w_holecopy 1 = true
 theorem C03_false_holecopy : C03_false_holecopy_stmt := by unfold C03_false_holecopy_stmt; decide
+
+/-! ## The verdict of the independent checker does not depend on the fuel -/
+
+/-- More fuel never changes an answer of the normalizer … -/
+def C03_whnfX_fuel_mono_stmt : Prop :=
+  ∀ (f : Nat) (Δ : DCtxX) (t r : Tm), whnfX f Δ t = some r → whnfX (f+1) Δ t = some r
+/-- … of the conversion check … -/
+def C03_convX_fuel_mono_stmt : Prop :=
+  ∀ (f : Nat) (Δ : DCtxX) (a b : Tm) (r : Bool), convX f Δ a b = some r → convX (f+1) Δ a b = some r
+/-- … or a typing verdict: once `inferX` has answered (accepting with a type, or rejecting for a
+reason other than running out of fuel), every larger fuel gives the same answer. -/
+def C03_inferX_fuel_mono_stmt : Prop :=
+  ∀ (f : Nat) (Γ : TCtxX) (Δ : DCtxX) (t : Tm) (r : Except XErr Tm),
+    inferX f Γ Δ t = r → r ≠ .error .fuel → inferX (f+1) Γ Δ t = r
+theorem C03_whnfX_fuel_mono : C03_whnfX_fuel_mono_stmt := FuelLemmas.whnfX_mono
+theorem C03_convX_fuel_mono : C03_convX_fuel_mono_stmt := FuelLemmas.convX_mono
+theorem C03_inferX_fuel_mono : C03_inferX_fuel_mono_stmt := FuelLemmas.inferX_mono
+
+/-- The same three facts for an arbitrary larger fuel (not just one more unit), and for the whole
+judgement `oracleAccepts`: a verdict other than "out of fuel" is the verdict at every larger fuel. -/
+def C03_fuel_le_stmt : Prop :=
+  (∀ (f g : Nat) (Δ : DCtxX) (t r : Tm), f ≤ g → whnfX f Δ t = some r → whnfX g Δ t = some r) ∧
+  (∀ (f g : Nat) (Δ : DCtxX) (a b : Tm) (r : Bool), f ≤ g →
+    convX f Δ a b = some r → convX g Δ a b = some r) ∧
+  (∀ (f g : Nat) (Γ : TCtxX) (Δ : DCtxX) (t : Tm) (r : Except XErr Tm), f ≤ g →
+    inferX f Γ Δ t = r → r ≠ .error .fuel → inferX g Γ Δ t = r) ∧
+  (∀ (f g : Nat) (e ty : Tm) (r : Except XErr Bool), f ≤ g →
+    oracleAccepts f e ty = r → r ≠ .error .fuel → oracleAccepts g e ty = r)
+theorem C03_fuel_le : C03_fuel_le_stmt := by
+  refine ⟨fun f g Δ t r hfg h => FuelLemmas.whnfX_mono_le hfg h,
+    fun f g Δ a b r hfg h => FuelLemmas.convX_mono_le hfg h,
+    fun f g Γ Δ t r hfg h hr => FuelLemmas.inferX_mono_le hfg h hr, ?_⟩
+  intro f g e ty r hfg h hr
+  subst h
+  unfold oracleAccepts at hr ⊢
+  cases hi : inferX f [] [] e with
+  | error x =>
+    rw [hi] at hr
+    have hx : x ≠ .fuel := fun c => hr (by rw [c])
+    rw [FuelLemmas.inferX_mono_le hfg hi (fun c => hx (by injection c))]
+  | ok T =>
+    rw [hi] at hr
+    rw [FuelLemmas.inferX_mono_le hfg hi (fun c => by cases c)]
+    simp only at hr ⊢
+    cases hc : convX f [] T ty with
+    | none => rw [hc] at hr; exact absurd rfl hr
+    | some b => rw [FuelLemmas.convX_mono_le hfg hc]
+
+
+/-! ## The independent checker is sound for the declarative typing rules (`Typing.lean`) -/
+
+/-- hole-free contexts -/
+def TCtxX.holeFree (Γ : TCtxX) : Prop := ∀ e ∈ Γ, e.1.holeFree = true
+def DCtxX.holeFree (Δ : DCtxX) : Prop := ∀ e ∈ Δ, ∀ d o, e = some (d, o) → d.holeFree = true
+
+/-- The normalizer only rewrites a term into a convertible one. -/
+def C03_whnf_sound_stmt : Prop :=
+  ∀ (f : Nat) (Δ : DCtxX) (t r : Tm), whnfX f Δ t = some r → Conv Δ t r
+theorem C03_whnf_sound : C03_whnf_sound_stmt :=
+  fun _ _ _ _ h => TypingSound.whnfX_conv h
+
+/-- A positive answer of the conversion check on hole-free terms is a derivation of convertibility
+(no fuel, no strategy).  (With holes the check is deliberately lenient, so this cannot hold there.) -/
+def C03_conv_sound_stmt : Prop :=
+  ∀ (f : Nat) (Δ : DCtxX) (a b : Tm), a.holeFree = true → b.holeFree = true → DCtxX.holeFree Δ →
+    convX f Δ a b = some true → Conv Δ a b
+theorem C03_conv_sound : C03_conv_sound_stmt :=
+  fun f Δ a b ha hb hD h => TypingSound.convX_sound f Δ a b ha hb hD h
+
+/-- **Soundness of the independent checker**: on hole-free terms in hole-free contexts, the type it
+computes is a type of the term under the declarative rules. -/
+def C03_infer_sound_stmt : Prop :=
+  ∀ (f : Nat) (Γ : TCtxX) (Δ : DCtxX) (t T : Tm), t.holeFree = true → TCtxX.holeFree Γ → DCtxX.holeFree Δ →
+    inferX f Γ Δ t = .ok T → HasType Γ Δ t T
+theorem C03_infer_sound : C03_infer_sound_stmt :=
+  fun _ _ _ _ _ ht hΓ hD h => TypingSound.inferX_sound ht hΓ hD h
+
+/-- The same for definition groups: an accepted hole-free group is well typed under the declarative
+rules. -/
+def C03_inferDefs_sound_stmt : Prop :=
+  ∀ (f : Nat) (Γ : TCtxX) (Δ : DCtxX) (ds : Defs), ds.holeFree = true → TCtxX.holeFree Γ →
+    DCtxX.holeFree Δ → inferDefsX f Γ Δ ds = .ok () → DefsOK Γ Δ ds
+theorem C03_inferDefs_sound : C03_inferDefs_sound_stmt :=
+  fun _ _ _ _ hds hΓ hD h => TypingSound.inferDefsX_sound hds hΓ hD h
+
+/-- The whole judgement made about an accepted program: if the independent checker accepts a
+hole-free elaboration at a hole-free reported type, the elaboration has the reported type under the
+declarative rules. -/
+def C03_oracle_sound_stmt : Prop :=
+  ∀ (fuel : Nat) (e ty : Tm), e.holeFree = true → ty.holeFree = true →
+    oracleAccepts fuel e ty = .ok true → HasType [] [] e ty
+theorem C03_oracle_sound : C03_oracle_sound_stmt :=
+  fun _ _ _ he hty h => TypingSound.oracleAccepts_sound he hty h
+
+/-! ### The hypotheses are satisfiable and the conclusions say something -/
+
+/-- Boolean forms of "the checker answered exactly this", so that the examples are closed by kernel
+evaluation (`decide`). -/
+def C03_acceptsB (x : Except XErr Bool) : Bool := match x with | .ok true => true | _ => false
+theorem C03_of_acceptsB {x : Except XErr Bool} (h : C03_acceptsB x = true) : x = .ok true := by
+  unfold C03_acceptsB at h; split at h <;> first | rfl | cases h
+def C03_infersB (x : Except XErr Tm) (T : Tm) : Bool := match x with | .ok T' => decide (T' = T) | _ => false
+theorem C03_of_infersB {x : Except XErr Tm} {T : Tm} (h : C03_infersB x T = true) : x = .ok T := by
+  unfold C03_infersB at h; split at h
+  · rw [of_decide_eq_true h]
+  · cases h
+
+-- `(x => x + 1) 2` normalizes to `3`, hence is convertible with it
+example : Conv [] (.app (.lam 1 false .int (.bin .sum (.var 1 0) (.lit 1))) (.lit 2)) (.lit 3) :=
+  C03_whnf_sound 5 [] _ _ (by decide)
+
+-- under a definition `n : int = 2` (entry `some (lit 2, 1)`), `if n < 3 then int else bool` is
+-- convertible with `(A : type) => A` applied to `int`, although neither is a normal form of the other
+example : Conv [some (.lit 2, 1)]
+    (.ite (.bin .lt (.var 7 0) (.lit 3)) .int .bool) (.app (.lam 1 false .type (.var 1 0)) .int) :=
+  C03_conv_sound 6 _ _ _ rfl rfl (by intro e he d o heq; simp at he; subst he; cases heq; rfl)
+    (by decide)
+
+/-- `id : (A : type) -> A -> A = A => x => x;  k : int = id int 2;  id int (k + 1)` — a definition
+group with a dependent function, a definition that uses it, and a body that uses both. -/
+def C03_ex_group : Tm :=
+  .letg
+    (.cons 1 (.pi 2 false .type (.pi 3 false (.var 2 0) (.var 2 1)))
+             (.lam 2 false .type (.lam 3 false (.var 2 0) (.var 3 0)))
+     (.cons 4 .int (.app (.app (.var 1 1) .int) (.lit 2)) .nil))
+    (.app (.app (.var 1 1) .int) (.bin .sum (.var 4 0) (.lit 1)))
+
+-- it is accepted at type `int` by the independent checker, hence has type `int` declaratively
+example : HasType [] [] C03_ex_group .int :=
+  C03_oracle_sound 12 _ _ rfl rfl (C03_of_acceptsB (by decide))
+
+-- the dependent identity alone has its dependent type
+example : HasType [] [] (.lam 2 false .type (.lam 3 false (.var 2 0) (.var 3 0)))
+    (.pi 2 false .type (.pi 3 false (.var 2 0) (.var 2 1))) :=
+  C03_infer_sound 4 [] [] _ _ rfl (fun _ h => by cases h) (fun _ h => by cases h) (C03_of_infersB (by decide))
